@@ -48,6 +48,19 @@ Example C07_nonvacuous :
   | Fail _ => false end = true.
 Proof. vm_compute. reflexivity. Qed.
 
+(* How a reader takes its bytes: io.ReadFull (binary.Read is ReadFull of the value's size) on the structural model of
+   bytes.Buffer (Model/Buffer.v, tied to the real type by the "buf" correspondence slice): when k bytes are there it
+   returns exactly the first k and leaves the rest; otherwise it returns an error - never fewer bytes with success. *)
+From FP.Model Require Buffer.
+From FP.Theory Require BufferRefine.
+Theorem C07_read_full_takes_exactly_k_or_fails : forall h b k, BufferRefine.WF h b ->
+  let '(b', out, err) := Buffer.read_full h b k in
+  BufferRefine.WF h b' /\ Buffer.contents h b' = skipn k (Buffer.contents h b) /\
+  ((k <= Buffer.unread b)%nat -> out = firstn k (Buffer.contents h b) /\ err = false) /\
+  ((Buffer.unread b < k)%nat -> out = Buffer.contents h b /\ err = true).
+Proof. exact BufferRefine.read_full_refines. Qed.
+
+Print Assumptions C07_read_full_takes_exactly_k_or_fails.
 Print Assumptions C07_exact_consumption.
 Print Assumptions C07_rest_is_a_suffix.
 Print Assumptions C07_streams_decode_back.
